@@ -20,7 +20,7 @@ Print Assumptions lockset_sound.
 Theorem C10_lockset_race_free_refuted :
   race_free table = false /\
   racy_pairs table =
-    [(20,22); (20,23); (21,22); (21,23); (30,31); (32,33); (34,35); (36,37); (38,40); (39,40); (41,42)]%N.
+    [(20,22); (20,23); (20,70); (21,22); (21,23); (21,70); (30,31); (30,71); (32,33); (32,72); (34,35); (34,73); (36,37); (36,74); (38,40); (38,75); (39,40); (39,75); (41,42); (45,45); (45,46); (45,47); (46,47)]%N.
 Proof. exact lockset_race_free_refuted. Qed.
 Print Assumptions C10_lockset_race_free_refuted.
 
